@@ -7,6 +7,7 @@ import (
 	"time"
 
 	"github.com/go-spatial/geom"
+	"github.com/go-spatial/geom/cmp"
 	"github.com/go-spatial/geom/encoding/gpkg"
 	"github.com/pdok/texel/processing"
 )
@@ -253,6 +254,9 @@ func (target *TargetGeopackage) writeFeatures(features []processing.Feature) {
 			log.Fatalf("Could not get a result summary from the prepared statement for fid %s: %s", fid, err)
 		}
 
+		if cmp.IsEmptyGeo(f.Geometry()) {
+			continue // an empty geometry (e.g. POINT EMPTY, encoded as NaNs) has no extent
+		}
 		if ext == nil {
 			ext, err = geom.NewExtentFromGeometry(f.Geometry())
 			if err != nil {
